@@ -29,6 +29,9 @@ type ResetProcessor struct {
 	target       interface{}
 	paths        []tree.Path
 	visitedNodes map[*yaml.Node][]string
+	// activeNodes counts, for each collection node, how many times it is currently being resolved
+	// (how often it appears on the recursion stack)
+	activeNodes map[*yaml.Node]int
 }
 
 // UnmarshalYAML implement yaml.Unmarshaler
@@ -55,6 +58,11 @@ func (p *ResetProcessor) resolveReset(node *yaml.Node, path tree.Path) (*yaml.No
 		if err := p.checkForCycle(node.Alias, path); err != nil {
 			return nil, err
 		}
+		if p.activeNodes[node.Alias] > 1 {
+			// the alias keeps re-entering a node that encloses it and checkForCycle did not object
+			// (merge keys, identical paths): resolving it would never terminate
+			return nil, fmt.Errorf("cycle detected: alias %q at path %s references an enclosing node", node.Value, path.String())
+		}
 
 		return p.resolveReset(node.Alias, path)
 	}
@@ -66,6 +74,13 @@ func (p *ResetProcessor) resolveReset(node *yaml.Node, path tree.Path) (*yaml.No
 	if node.Tag == "!override" {
 		p.paths = append(p.paths, path)
 		return node, nil
+	}
+	if node.Kind == yaml.SequenceNode || node.Kind == yaml.MappingNode {
+		if p.activeNodes == nil {
+			p.activeNodes = map[*yaml.Node]int{}
+		}
+		p.activeNodes[node]++
+		defer func() { p.activeNodes[node]-- }()
 	}
 	switch node.Kind {
 	case yaml.SequenceNode:
